@@ -104,6 +104,8 @@ func DemandBody(c *conf.Conf, sp DemandSpec) func() {
 			vsched.Close(src)
 		}
 		if sp.Close {
+			vsched.WaitQuiet() // the requests are on hold (the source, if any, is about to show up)
+			vsched.Log("closing")
 			pm.Close()
 			vsched.Log("closed")
 			vsched.Recv(r1)
